@@ -38,7 +38,48 @@ pub fn drain_checked<I: Iterator>(mk: impl Fn() -> I, bound: usize) -> Vec<I::It
 where
     I::Item: std::fmt::Debug,
 {
+    drain_methods(mk, bound, ASSERT_ITER.with(|c| c.get()))
+}
+
+thread_local! {
+    /// whether `drain_checked` compares the provided Iterator methods with next() (every monitor but C01,
+    /// which only asks that the calls return)
+    static ASSERT_ITER: std::cell::Cell<bool> = const { std::cell::Cell::new(true) };
+}
+/// Guard: while it lives, iterator-method disagreements are exercised but not raised on this thread.
+pub struct NoIterAssert(bool);
+pub fn no_iter_assert() -> NoIterAssert {
+    NoIterAssert(ASSERT_ITER.with(|c| c.replace(false)))
+}
+impl Drop for NoIterAssert {
+    fn drop(&mut self) {
+        ASSERT_ITER.with(|c| c.set(self.0));
+    }
+}
+
+/// The same calls without the comparison (C01 only asks that they return).
+pub fn drain_exercised<I: Iterator>(mk: impl Fn() -> I, bound: usize) -> Vec<I::Item>
+where
+    I::Item: std::fmt::Debug,
+{
+    drain_methods(mk, bound, false)
+}
+
+fn drain_methods<I: Iterator>(mk: impl Fn() -> I, bound: usize, assert: bool) -> Vec<I::Item>
+where
+    I::Item: std::fmt::Debug,
+{
     let v = drain(mk(), bound);
+    if !assert {
+        let _ = mk().take(bound).count();
+        let _ = mk().take(bound).last();
+        let _ = mk().size_hint();
+        let mut it = mk();
+        let _ = it.next();
+        let _ = it.nth(1);
+        let _ = drain(it, bound);
+        return v;
+    }
     let n = mk().count();
     if n != v.len() {
         panic!("{ITER_INCONSISTENT_MSG}: count() == {n} but next() yields {} items", v.len());
